@@ -507,3 +507,41 @@ Definition run_c03 (invert implicit_temp explicit_stage : bool) (host : hostg) (
       L [L [trc (negb implicit_temp) rc; tmolg l; tmolg r]; tbool flag; tmolg pat; L rows; tbool crashed;
          tbool (wf_rcb rc && wf_hostb host)]
   end.
+
+(** ** round 2 addition (existing definitions above are unchanged; C04 / C05 use them): the same observable with the
+    WIRING of _explicit_h — the multiset of (donor, recipient) pairs, one per new explicit H atom — so that a
+    hydrogen wired between the wrong partners is a correspondence mismatch even when all counts agree *)
+Definition t_explicit_w (before : its) (r : option (its * list (N * N))) : tok :=
+  match r with
+  | None => L []
+  | Some (_, ms) => L [t_explicit before r; tset (fun sd : N * N => L [tN (fst sd); tN (snd sd)]) ms]
+  end.
+
+Definition t_glued_w (show_ex : bool) (host : hostg) (rc : its) (m : mapping) (g : option its) : tok :=
+  match g with
+  | None => L []
+  | Some g' => L [L [tits g'; tlist tZ (branches host rc m); if show_ex then t_explicit_w g' (explicit_h g') else L []]]
+  end.
+
+Definition run_c03w (invert implicit_temp explicit_stage : bool) (host : hostg) (tpl : its)
+                    (calls : list (mapping * option (list mapping))) : tok :=
+  let tpl' := if invert then invert_template tpl else tpl in
+  match synrule tpl' (negb implicit_temp) with
+  | None => L [I (-1)]
+  | Some (rc, l, r) =>
+      let flag := has_XH l in
+      let pat := if flag then h_to_implicit l else l in
+      let glued := map (fun c => let '(hb, ms) := call_base host c in (c, hb, map (fun x => (x, glue hb rc x)) ms)) calls in
+      let crashed := explicit_stage && existsb (fun t => existsb (fun xg => crashes (snd xg)) (snd t)) glued in
+      let show_ex := explicit_stage && negb crashed in
+      let rows := map (fun t : (mapping * option (list mapping)) * hostg * list (mapping * option its) =>
+                     let '(c, hb, gs) := t in
+                     let m := fst c in
+                     L [tmap m; tbool (match_okb host pat m);
+                        match snd c with None => L [] | Some _ => L [thostg hb] end;
+                        match snd c with None => L [] | Some rs => tlist (fun x => L [tmap x; tbool (match_okb hb l x)]) rs end;
+                        L (map (fun xg => t_glued_w show_ex hb rc (fst xg) (snd xg)) gs);
+                        tbool (wf_hostb hb && forallb (fun xg => match_rcb hb rc (fst xg)) gs)]) glued in
+      L [L [trc (negb implicit_temp) rc; tmolg l; tmolg r]; tbool flag; tmolg pat; L rows; tbool crashed;
+         tbool (wf_rcb rc && wf_hostb host)]
+  end.
